@@ -227,6 +227,12 @@ def c10(ctx):
     edit_replay(ctx, "bytepos", "C10")        # every byte < 0x80 at every position 0..17 of a padded string; pairs of escapes
     edit_replay(ctx, "nonfinite", "C10")      # SetFloat(NaN / +Inf / -Inf): marshalling must fail
     edit_replay(ctx, "bigfloat", "C10")       # floats printed as long digit runs (1e16 .. 1e21) and both switches to exponent form
+    # IterMachine!Marshal: the marshaller over raw tape words from EVERY iterator state the navigation walks pass through (fresh,
+    # positioned by Advance with a pending skip, by AdvanceInto, scoped by AdvanceIter / Root / NextElementBytes, Array.Iter()):
+    # M terminates within the tape length and what it returns without an error is properly bracketed; G token by token
+    ri = ctx.tlc("MC_IterMachine", consts={"MaxWords": 2 if quick(ctx) else 3}, dump="states", label="marshal machine over iterator states", timeout=3000)
+    ctx.vh(["g-iter", "-dump", ri["dump"], "-expect", str(ri["distinct"]), "-property", "C10"], timeout=3000)
+    os.remove(ri["dump"])
     # nesting deeper than any fixed-size bookkeeping, as single document and inside NDJSON, from root / per-root / inner iterators
     ctx.vh(["v-deepmarshal", "-property", "C10"] + ([] if quick(ctx) else ["-full"]), timeout=3000)
     if not quick(ctx):
